@@ -91,6 +91,7 @@ func appendStep(i int) Event       { return Event{Kind: EvAppend, Node: uint8(i)
 func pauseReady(i, on int) Event   { return Event{Kind: EvPauseReady, Node: uint8(i), Arg: uint16(on)} }
 func holdFrom(i int) Event         { return Event{Kind: EvHoldFrom, Node: uint8(i)} }
 func flush() Event                 { return Event{Kind: EvFlush} }
+func deliverHeld(i, j int) Event   { return Event{Kind: EvDeliverHeld, Node: uint8(i), Peer: uint8(j)} }
 func sendSnap(i, j int) Event      { return Event{Kind: EvSendSnap, Node: uint8(i), Peer: uint8(j)} }
 func pauseAppend(i, on int) Event  { return Event{Kind: EvPauseAppend, Node: uint8(i), Arg: uint16(on)} }
 func confMixed(i, k, n int) Event  { return Event{Kind: EvProposeConf, Node: uint8(i), Peer: uint8(n), Arg: uint16(k)} }
@@ -158,6 +159,18 @@ func bfsReplicate(f feat, props int, faults ...int) *Scenario {
 	s.ProposeNodes = []uint8{1, 2}
 	s.budget(faults...)
 	return s.named(faultTag(faults))
+}
+
+// bfsInflights: one leader, one follower, one entry per append; proposals and every order of
+// delivering appends and acknowledgements (the follower's speed is the only freedom): all
+// fill/drain patterns of the in-flight window.
+func bfsInflights(f feat, maxInflight, props int) *Scenario {
+	c := flowCfg(f, maxInflight, 1, 0, 0)
+	s := newSc(fmt.Sprintf("bfs/inflights%d/", maxInflight)+f.tag(), 2, ids(2), c)
+	s.Prefix = []Event{camp(1)}
+	s.budget(int(BPropose), props)
+	s.ProposeNodes = []uint8{1}
+	return s
 }
 
 // bfsFailover: leader 1 has replicated an entry to node 2 only and is cut off;
@@ -422,6 +435,20 @@ func autoLeaveTransferSc(f feat, k int, budgets ...int) *Scenario {
 	return s
 }
 
+// scriptRemoveLowersQuorum: four voters, node 4 cut off. The leader's apply thread is stalled
+// while the removal of node 4 commits; a later entry is acknowledged by one follower only (not
+// a quorum of four). When the leader finally applies the removal the quorum drops to two, the
+// later entry commits inside the configuration switch and the new commit index is broadcast.
+func scriptRemoveLowersQuorum() []Event {
+	return seq(camp(1), prop(1), isolate(4), pauseApply(1, 1), conf(1, 0), holdFrom(3), prop(1), pauseApply(1, 0), prop(1), flush(), heal(), prop(1))
+}
+
+func removeLowersQuorumSc(k int, budgets ...int) *Scenario {
+	s := ddScn("remove-lowers-quorum", 4, ids(4), asyncF, scriptRemoveLowersQuorum(), k, budgets...)
+	s.ConfMenu = []ConfSpec{{Changes: "r4"}}
+	return s
+}
+
 func scriptConfFailover() []Event {
 	return seq(camp(1), prop(1), cut(1, 3), conf(1, mJointExpl), isolate(1), camp(2), prop(2), conf(2, mLeave), heal(), prop(2), conf(2, mAddVoter4), prop(2))
 }
@@ -499,6 +526,17 @@ func flowCfg(f feat, maxInflight int, maxSize, maxBytes, maxUncommitted uint64) 
 
 func scriptFlow() []Event {
 	return seq(camp(1), isolate(3), prop(1), prop(1), prop(1), prop(1), prop(1), heal(), prop(1), unreach(1, 2), prop(1), prop(1), isolate(1), prop(1), prop(1), prop(1), prop(1), heal(), camp(2), prop(2))
+}
+
+// scriptInflightRing: exact scheduling of appends and acknowledgements between a leader and one
+// follower (everything is held back and delivered one message at a time): the window fills to 4,
+// half of it is acknowledged, one more append is sent (the ring buffer grows with a non-zero
+// start), one more acknowledgement, then the follower goes silent while proposals continue until
+// the count limit binds.
+func scriptInflightRing() []Event {
+	d12, d21 := deliverHeld(1, 2), deliverHeld(2, 1)
+	return seq(camp(1), holdFrom(1), holdFrom(2), prop(1), prop(1), prop(1), prop(1), d12, d12, d21, d21, prop(1), d12, d21, prop(1), prop(1), prop(1), prop(1), prop(1), prop(1), prop(1),
+		d12, d21, prop(1), prop(1))
 }
 
 // scriptFlowSnapshotLeader: a node that joined through a snapshot later becomes
@@ -835,6 +873,7 @@ func poolConf(tier string) (p pool) {
 	// validation of conf-change proposals disabled; the application itself proposes one change at a time
 	p.dd = append(p.dd, confSc("simple-conf", feat{noccv: true}, scriptSimpleConf(), k, defaultFaults...),
 		confSc("joint", feat{noccv: true, async: true}, scriptJoint(), k, defaultFaults...))
+	p.dd = append(p.dd, removeLowersQuorumSc(k, defaultFaults...))
 	for _, f := range []feat{syncF, asyncF} {
 		p.dd = append(p.dd, replaceTwoSc(f, k, defaultFaults...))
 		p.dd = append(p.dd, autoLeaveTransferSc(f, k, int(BTick), 1, int(BDrop), 1, int(BDup), 1))
@@ -928,10 +967,18 @@ func poolFlow(tier string) (p pool) {
 		}
 	}
 	for _, f := range []feat{syncF, asyncF} {
+		for _, mi := range []int{5, 6} {
+			ir := ddScn(fmt.Sprintf("inflight-ring%d", mi), 2, ids(2), f, scriptInflightRing(), k, int(BDrop), 1, int(BDup), 1)
+			ir.Cfg = []NodeCfg{flowCfg(f, mi, 1, 0, 0)}
+			p.dd = append(p.dd, ir)
+		}
+	}
+	for _, f := range []feat{syncF, asyncF} {
 		su := tickSnap(ddScn("snapshot-unreachable", 3, ids(3), f, scriptSnapshotUnreachable(), k, defaultFaults...))
 		su.SlowSnap = true
 		p.dd = append(p.dd, su)
 	}
+	p.bfs = append(p.bfs, bfsInflights(syncF, 5, 9), bfsInflights(syncF, 3, 6))
 	// uneven entry sizes across the stable/unstable boundary of the leader's log
 	{
 		c := flowCfg(asyncF, 8, 40, 0, 0)
@@ -1128,7 +1175,7 @@ func Jobs(prop, tier string) []*Job {
 			ddScn("failover", 3, ids(3), syncF, scriptFailover(), k+1, fl...), ddScn("figure8", 3, ids(3), asyncF, scriptFigure8(), k+1, fl...),
 			ddScn("snapshot", 3, ids(3), syncF, scriptSnapshot(), k, fl...), ddScn("snapshot-restart", 3, ids(3), asyncF, scriptSnapshotRestart(), k, fl...),
 			confSc("learner", syncF, scriptLearner(), k, fl...), confSc("joint", asyncF, scriptJoint(), k, fl...), confSc("conf+failover", feat{stepdown: true}, scriptConfFailover(), k, fl...),
-			replaceTwoSc(syncF, k, fl...), replaceTwoSc(pvcqF, k, fl...),
+			replaceTwoSc(syncF, k, fl...), replaceTwoSc(pvcqF, k, fl...), removeLowersQuorumSc(k, fl...),
 			ddScn("read", 3, ids(3), pvcqF, scriptRead(), k+1, fl...),
 			tickSc("prevote-rejoin", 3, pvcqF, scriptPrevoteRejoin(), k, int(BTick), 2, int(BDrop), 1),
 			tickSc("checkquorum-lease", 3, cqF, scriptCheckQuorumLease(), k, int(BTick), 2, int(BDrop), 1),
